@@ -132,6 +132,77 @@ static void dopow(Rng& r, int n, const Interval& x) {
     EMIT("bwdpt pow%d %s %s:%s %s => %s\n", n, tok(y).c_str(), hex(dn).c_str(), hex(up).c_str(), hex(v).c_str(), rawtok(a).c_str());
   }
 }
+
+// ---- saw, root, chi: contraction + the point rule with EXACT images (saw(v) = v - round(v) is exact in binary64 below 2^51)
+static void do_saw(Rng& r, const Interval& x0) {
+  Interval x = x0;
+  // structured arguments: bounds of x sitting exactly on the ends of the admissible windows k + y
+  Interval y;
+  if (r.coin(60)) {
+    double a = r.range(-16, 16) / 32.0, b = r.range(-16, 16) / 32.0; if (a > b) swap(a, b); if (r.coin(20)) b = a;
+    y = Interval(a, b);
+    double k1 = (double)r.range(-6, 6), k2 = k1 + r.range(0, 4);
+    double lo, hi;
+    switch (r.below(5)) { case 0: lo = k1 + b; break; case 1: lo = k1 + a; break; case 2: lo = k1 + 0.5; break; case 3: lo = k1 - 0.5; break; default: lo = k1 + r.range(-32, 32) / 64.0; }
+    switch (r.below(5)) { case 0: hi = k2 + a; break; case 1: hi = k2 + b; break; case 2: hi = k2 + 0.5; break; case 3: hi = k2 - 0.5; break; default: hi = k2 + r.range(-32, 32) / 64.0; }
+    if (lo > hi) swap(lo, hi);
+    x = Interval(lo, hi);
+    if (r.coin(10)) { double sc = std::ldexp(1.0, (int)r.range(40, 53)); x = Interval(lo + sc, hi + sc); }     // (large magnitudes: integers start to be skipped)
+  } else y = pick_y(r, saw(sub_itv(r, x)));
+  if (x.is_empty()) return;
+  Interval a = x; bool fl = bwd_saw(y, a);
+  check_round_up("saw");
+  EMIT("bwdsub saw %s %s => %s %s\n", tok(y).c_str(), tok(x).c_str(), rawtok(a).c_str(), tok(fl).c_str());
+  if (y.is_empty()) return;
+  vector<double> pts = samples(r, x, 3);
+  pts.push_back(x.lb()); pts.push_back(x.ub());
+  for (int q = 0; q < 4; q++) { double k = std::round(x.lb()) + q; pts.push_back(k + y.lb()); pts.push_back(k + y.ub()); k = std::round(x.ub()) - q; pts.push_back(k + y.lb()); pts.push_back(k + y.ub()); }
+  if (!a.is_empty()) { pts.push_back(std::nextafter(a.lb(), -INFINITY)); pts.push_back(std::nextafter(a.ub(), INFINITY)); }
+  for (double v : pts) {
+    if (!(v == v) || !(fabs(v) < 2251799813685248.0) || !x.contains(v) || a.contains(v)) continue;
+    double sv = v - std::round(v);                       // exact
+    EMIT("bwdpt saw %s %s:%s %s => %s\n", tok(y).c_str(), hex(sv).c_str(), hex(sv).c_str(), hex(v).c_str(), rawtok(a).c_str());
+  }
+}
+static void do_root(Rng& r, int n, const Interval& x) {
+  if (x.is_empty()) return;
+  Interval img = root(sub_itv(r, x), n); Interval y = pick_y(r, img);
+  Interval a = x; bool fl = bwd_root(y, n, a);
+  check_round_up("root");
+  EMIT("bwdsub root%d %s %s => %s %s\n", n, tok(y).c_str(), tok(x).c_str(), rawtok(a).c_str(), tok(fl).c_str());
+  if (y.is_empty()) return;
+  vector<double> pts = samples(r, x, 4);
+  if (!a.is_empty()) { pts.push_back(std::nextafter(a.lb(), -INFINITY)); pts.push_back(std::nextafter(a.ub(), INFINITY)); }
+  for (double v : pts) {
+    if (!(v == v) || fabs(v) > DBL_MAX || !x.contains(v) || a.contains(v)) continue;
+    if (n % 2 == 0 && v < 0) continue;
+    mpfr_t xv, rr; mpfr_init2(xv, 53); mpfr_init2(rr, 53); mpfr_set_d(xv, v, MPFR_RNDN);
+    mpfr_rootn_ui(rr, xv, (unsigned long)n, MPFR_RNDD); double dn = mpfr_get_d(rr, MPFR_RNDD); bool nan = mpfr_nan_p(rr);
+    mpfr_rootn_ui(rr, xv, (unsigned long)n, MPFR_RNDU); double up = mpfr_get_d(rr, MPFR_RNDU); nan = nan || mpfr_nan_p(rr);
+    mpfr_clear(xv); mpfr_clear(rr); if (nan) continue;
+    EMIT("bwdpt root%d %s %s:%s %s => %s\n", n, tok(y).c_str(), hex(dn).c_str(), hex(up).c_str(), hex(v).c_str(), rawtok(a).c_str());
+  }
+}
+static void do_chi(Rng& r, const Interval& a0, const Interval& b0, const Interval& c0) {
+  if (a0.is_empty() || b0.is_empty() || c0.is_empty()) return;
+  Interval f;
+  switch (r.below(5)) { case 0: f = sub_itv(r, b0); break; case 1: f = sub_itv(r, c0); break; case 2: f = b0 | c0; break; case 3: f = rand_itv(r); break; default: f = sub_itv(r, b0) | sub_itv(r, c0); }
+  Interval a = a0, b = b0, c = c0; bool fl = bwd_chi(f, a, b, c);
+  check_round_up("chi");
+  EMIT("bwdsub3 chi %s %s %s %s => %s %s %s %s\n", tok(f).c_str(), tok(a0).c_str(), tok(b0).c_str(), tok(c0).c_str(), rawtok(a).c_str(), rawtok(b).c_str(), rawtok(c).c_str(), tok(fl).c_str());
+  if (f.is_empty()) return;
+  vector<double> pa = samples(r, a0, 3), pb = samples(r, b0, 3), pc = samples(r, c0, 3);
+  if (a0.contains(0)) pa.push_back(0.0);
+  if (a0.lb() < 0) pa.push_back(std::max(a0.lb(), -DBL_MIN)); if (a0.ub() > 0) pa.push_back(std::min(a0.ub(), DBL_MIN));
+  for (double va : pa) for (double vb : pb) for (double vc : pc) {
+    if (!(va == va) || !(vb == vb) || !(vc == vc) || fabs(va) > DBL_MAX || fabs(vb) > DBL_MAX || fabs(vc) > DBL_MAX) continue;
+    if (!a0.contains(va) || !b0.contains(vb) || !c0.contains(vc)) continue;
+    if (a.contains(va) && b.contains(vb) && c.contains(vc)) continue;
+    double fv = va <= 0 ? vb : vc;
+    EMIT("bwdpt3 chi %s %s:%s %s %s %s => %s %s %s\n", tok(f).c_str(), hex(fv).c_str(), hex(fv).c_str(), hex(va).c_str(), hex(vb).c_str(), hex(vc).c_str(), rawtok(a).c_str(), rawtok(b).c_str(), rawtok(c).c_str());
+  }
+}
+
 static void doT(Rng& r, const OpT& op, const Interval& x) {
   Interval y = pick_y(r, op.f(sub_itv(r, x)));
   Interval a = x; bool fl = op.b(y, a);
@@ -234,11 +305,15 @@ int main(int argc, char** argv) {
     }
   } else if (wl == "c03t") {
     for (auto& x : LI) for (auto& op : OPT) if (full || r.coin(25)) doT(r, op, x);
+    for (auto& x : LI) if (full || r.coin(30)) { do_saw(r, x); do_root(r, r.range(2, 5), x); }
     for (auto& x1 : LI) for (auto& x2 : LI) if (full ? r.below(LI.size()) < 30 : r.below(LI.size()) < 3) do_atan2(r, x1, x2);
     for (long i = 0; i < n; i++) {
       Interval x = rand_itv(r);
       if (r.coin(60)) { double c = r.range(-400, 400) / 32.0; x = Interval(c, c + std::ldexp(1.0, r.range(-20, 4))); }
       for (auto& op : OPT) doT(r, op, x);
+      do_saw(r, x); do_saw(r, x); do_root(r, r.range(2, 5), x);
+      { Interval cb = rand_itv(r), cc = rand_itv(r); if (r.coin(70)) { double c = r.range(-40, 40) / 4.0, d = r.range(-40, 40) / 4.0; cb = Interval(c, c + r.range(0, 16) / 4.0); cc = Interval(d, d + r.range(0, 16) / 4.0); }
+        Interval ca = r.coin(60) ? Interval(r.range(-8, 2) / 4.0, r.range(-2, 8) / 4.0) : x; do_chi(r, ca, cb, cc); }
       Interval x2 = rand_itv(r); if (r.coin(60)) { double c = r.range(-40, 40) / 4.0; x2 = Interval(c, c + r.range(0, 16) / 4.0); }
       do_atan2(r, x, x2); do_atan2(r, x2, x);
     }
